@@ -18,7 +18,10 @@ RULE = (
 	'(Symbol: 12 plain types, aggregates complete/bonded v1/v2 with 0-3 embedded transactions and 0-2 cosignatures, on mainnet, '
 	'testnet and networks with random generation-hash seeds; NEM: transfers v1/v2, key link, multisig modification, namespace, mosaic '
 	'definition/supply, cosignature, multisig with 0-2 cosignatures) x sampled single-bit flips of serialized transaction, '
-	'signature halves and public key, S+L, S=0, the zero key; raw messages of boundary lengths; voting key trees; key vectors. '
+	'signature halves and public key, S+L, S=0, the zero key; raw messages of boundary lengths; voting key trees; key vectors; object '
+	're-use histories (one KeyPair signing a sequence incl. repeats and the empty message, key pairs created in another order and '
+	'used alternately, one facade/key pair/account signing and cosigning several transactions incl. the NEM multisig path, one '
+	'Verifier judging good and bad signatures in turn), every step against the reference. '
 	'A case is distinct by its (operation, hex arguments) tuple; each is evaluated on the implementation, the oracle and the model.')
 TRUSTED_BASE = [
 	'Lean 4.33 kernel; axioms of the property theorems: subset of {propext, Classical.choice, Quot.sound}',
@@ -708,6 +711,87 @@ class Checker:
 			f'voting {hx(secret)} {start} {stop} {keys}', 'voting key tree != header + (child key, reference root signature over child public key + id) from end down to start')
 		return answer
 
+	# --- histories: one object used several times (a signer must not carry state from one call to the next)
+
+	def _signed(self, function, *args):
+		import nacl.exceptions
+		try:
+			return 'ok ' + hx(function(*args).bytes)
+		except nacl.exceptions.RuntimeError:
+			return 'none'
+
+	def sign_history(self, network, secret, messages, companions=()):
+		"""One KeyPair object signs `messages` in order; `companions` are other secrets whose key pairs are created before it and
+		sign in between (creation order and interleaving must not matter). Every signature is the reference signature."""
+		others = [self.impl.key_pair(network, other) for other in companions]
+		key_pair = self.impl.key_pair(network, secret)
+		for index, message in enumerate(messages):
+			answer = self._signed(key_pair.sign, message)
+			for other, other_secret in zip(others, companions):
+				between = self._signed(other.sign, message)
+				self.add('sign_history', {
+					'network': network, 'secret': other_secret, 'messages': list(messages[:index + 1]), 'companions': [secret], 'index': index},
+					between, 'ok ' + hx(ref_sign(network, other_secret, message)), f'sign {network} {hx(other_secret)} {hx(message)}',
+					f'signature #{index + 1} of a KeyPair object used next to another one != reference signature')
+			self.add('sign_history', {
+				'network': network, 'secret': secret, 'messages': list(messages[:index + 1]), 'companions': list(companions), 'index': index},
+				answer, 'ok ' + hx(ref_sign(network, secret, message)), f'sign {network} {hx(secret)} {hx(message)}',
+				f'signature #{index + 1} of one KeyPair object (messages before it: {index}) != deterministic reference signature')
+		fresh = self._signed(self.impl.key_pair(network, secret).sign, messages[0])
+		again = self._signed(key_pair.sign, messages[0])
+		if fresh != again:
+			self.ctx.fail('property', f'a fresh {network} KeyPair and a re-used one sign the same message differently: {fresh[:60]} / {again[:60]}', {
+				'op': 'sign_history', 'args': {'network': network, 'secret': secret, 'messages': list(messages) + [messages[0]], 'companions': list(companions), 'index': len(messages)},
+				'required': fresh, 'implementation': again})
+
+	def transaction_history(self, network, seed, secret, steps):
+		"""One facade, one key pair object and one account object sign the transactions of `steps` = [(kind, buffer, transaction)],
+		kind in sign / account_sign / cosign / account_cosign / cosign_detached; each result is the reference signature."""
+		facade = self.impl.facade(network, seed)
+		key_pair = self.impl.key_pair(network, secret)
+		account = facade.create_account(self.impl.types[1](secret))
+		kinds = [step[0] for step in steps]
+		buffers = [step[1] for step in steps]
+		for index, (kind, buffer, transaction) in enumerate(steps):
+			payload = self.layout.nem_payload(buffer) if 'nem' == network else self.layout.symbol_payload(seed, buffer)
+			args = {'network': network, 'seed': seed, 'secret': secret, 'kinds': ','.join(kinds[:index + 1]), 'transactions': buffers[:index + 1], 'index': index}
+			if kind in ('sign', 'account_sign'):
+				signer = (lambda tx: facade.sign_transaction(key_pair, tx)) if 'sign' == kind else account.sign_transaction
+				answer = self._signed(signer, transaction)
+				line = f'sign_tx_nem {hx(secret)} {hx(buffer)}' if 'nem' == network else f'sign_tx_symbol {hx(seed)} {hx(secret)} {hx(buffer)}'
+				self.add('sign_tx_history', args, answer, 'ok ' + hx(ref_sign(network, secret, payload)), line,
+					f'transaction signature #{index + 1} ({kind}) of one key pair / account object != reference signature of the documented payload')
+			else:
+				detached = 'cosign_detached' == kind
+				transaction_hash = facade.hash_transaction(transaction)
+				if 'account_cosign' == kind:
+					answer = account.cosign_transaction(transaction, detached).serialize()
+				else:
+					answer = facade.cosign_transaction(key_pair, transaction, detached).serialize()
+				required = bytes(8) + ref_public_key('symbol', secret) + ref_sign('symbol', secret, transaction_hash.bytes)
+				if detached:
+					required += transaction_hash.bytes
+				self.add('sign_tx_history', args, 'ok ' + hx(answer), 'ok ' + hx(required),
+					f'cosign {hx(secret)} {hx(transaction_hash.bytes)} {1 if detached else 0}',
+					f'cosignature #{index + 1} ({kind}) of one key pair / account object != reference signature of the transaction hash')
+
+	def verify_history(self, network, public_key, pairs, expected):
+		"""One Verifier object judges the (message, signature) pairs in order; a refusal in between must not change later verdicts."""
+		import nacl.exceptions
+		facade_class = self.impl.nem if 'nem' == network else self.impl.symbol(SYMBOL_SEEDS['testnet'])
+		verifier = facade_class.Verifier(self.impl.types[2](public_key))
+		for index, ((message, signature), required) in enumerate(zip(pairs, expected)):
+			try:
+				answer = 'accept' if verifier.verify(message, self.impl.types[3](signature)) else 'reject'
+			except nacl.exceptions.RuntimeError:
+				answer = 'libraryError'
+			except Exception as ex:  # pylint: disable=broad-except
+				answer = f'error:{type(ex).__name__}'
+			self.add('verify_history', {
+				'network': network, 'public_key': public_key, 'pairs': [list(pair) for pair in pairs[:index + 1]], 'expected': ','.join(expected[:index + 1]),
+				'index': index}, answer, required, f'verify {network} {hx(public_key)} {hx(message)} {hx(signature)}',
+				f'verdict #{index + 1} of one Verifier object (after {index} earlier verifications) is not {required}')
+
 	# --- settle
 
 	def settle(self):
@@ -912,6 +996,57 @@ def _transaction_round_body(checker, rng, network, all_bits=False):
 			ctx.count('cosign:' + ('detached' if detached else 'attached'))
 
 
+def _history_round(checker, rng, network):
+	"""Objects used more than once: a KeyPair signing a sequence of messages, key pairs created in another order and used
+	alternately, one facade / key pair / account signing several transactions, one Verifier judging several signatures."""
+	ctx = checker.ctx
+	impl = checker.impl
+	secret, other = gen_secret(rng), rng.bytes_(32)
+	first = rng.bytes_(rng.choice([1, 32, 33, 100]))
+	second = rng.bytes_(rng.choice([1, 64, 72, 200]))
+	messages = [first, second, first, first, b'', first, rng.bytes_(rng.choice([71, 72, 73, 144])), b'', second]
+	checker.sign_history(network, secret, messages[:rng.choice([6, 9])])
+	ctx.count(f'history:{network}:one-key-pair-many-messages')
+	checker.sign_history(network, secret, [first, second, first], companions=[other])
+	checker.sign_history(network, other, [second, first], companions=[secret, rng.bytes_(32)])
+	ctx.count(f'history:{network}:creation-order-and-interleaving', 2)
+	checker.settle()
+
+	# one facade, one key pair object, one account object, several transactions
+	key_pair = impl.key_pair(network, secret)
+	if 'nem' == network:
+		seed = None
+		facade = impl.nem
+		generated = [gen_nem_transaction(rng, facade, key_pair, multisig=flag)[0] for flag in (False, True, False, True)]
+	else:
+		seed = rng.choice([SYMBOL_SEEDS['mainnet'], SYMBOL_SEEDS['testnet'], rng.bytes_(32)])
+		facade = impl.symbol(seed)
+		generated = [gen_symbol_transaction(rng, facade, key_pair, aggregate=flag)[0] for flag in (False, True, True, False)]
+	transactions = [(transaction.serialize(), transaction) for transaction in generated]
+	transactions = [(buffer, transaction) for buffer, transaction in transactions if facade.transaction_factory.deserialize(buffer).serialize() == buffer]
+	if len(transactions) >= 2:
+		order = ['sign', 'account_sign', 'sign', 'sign', 'account_sign', 'sign']
+		picks = [transactions[0], transactions[1], transactions[0], transactions[-1], transactions[0], transactions[1 % len(transactions)]]
+		steps = [(kind, buffer, transaction) for kind, (buffer, transaction) in zip(order, picks)]
+		if 'nem' != network:
+			aggregates = [pair for pair, made in zip(transactions, generated) if 'Aggregate' in type(made).__name__] or transactions[:1]
+			steps[2:2] = [('cosign', *aggregates[0]), ('account_cosign', *aggregates[-1]), ('cosign_detached', *aggregates[0])]
+			steps.append(('cosign', *aggregates[0]))
+		checker.transaction_history(network, seed, secret, steps)
+		ctx.count(f'history:{network}:one-account-many-transactions')
+	checker.settle()
+
+	# one Verifier object
+	public_key = ref_public_key(network, secret)
+	good_first, good_second = ref_sign(network, secret, first), ref_sign(network, secret, second)
+	pairs = [
+		(first, good_first), (first, flip(good_first, rng.randrange(512))), (second, good_second), (second, good_first), (first, good_first),
+		(first, good_first[:32] + bytes(32)), (b'', ref_sign(network, secret, b'')), (second, good_second)]
+	checker.verify_history(network, public_key, pairs, ['accept', 'reject', 'accept', 'reject', 'accept', 'reject', 'accept', 'accept'])
+	ctx.count(f'history:{network}:one-verifier-many-signatures')
+	checker.settle()
+
+
 def _message_round(checker, rng, network):
 	secret = gen_secret(rng)
 	message = rng.bytes_(rng.choice([0, 1, 31, 32, 33, 63, 64, 65, 111, 112, 127, 128, 129, 200]))
@@ -1049,6 +1184,8 @@ def run(ctx):
 		for _ in range(ctx.scale(14, 200)):
 			_message_round(checker, rng, network)
 		checker.settle()
+		for _ in range(ctx.scale(5, 60)):
+			_history_round(checker, rng, network)
 	for _ in range(ctx.scale(8, 150)):
 		_voting_round(checker, rng)
 	checker.settle()
@@ -1098,6 +1235,15 @@ def replay(ctx, payload):
 			checker.cosign(seed, args['secret'], args['transaction'], transaction, args['detached'])
 	elif 'voting' == name:
 		checker.voting(args['secret'], args['start'], args['stop'], args['child_keys'])
+	elif 'sign_history' == name:
+		checker.sign_history(args['network'], args['secret'], args['messages'], args.get('companions') or [])
+	elif 'sign_tx_history' == name:
+		network, seed = args['network'], args.get('seed')
+		factory = impl.facade(network, seed).transaction_factory
+		steps = [(kind, buffer, factory.deserialize(buffer)) for kind, buffer in zip(args['kinds'].split(','), args['transactions'])]
+		checker.transaction_history(network, seed, args['secret'], steps)
+	elif 'verify_history' == name:
+		checker.verify_history(args['network'], args['public_key'], [tuple(pair) for pair in args['pairs']], args['expected'].split(','))
 	else:
 		run(ctx)
 		return
